@@ -560,3 +560,7 @@ func fillOf(j func(Hist) *h.Verdict) func(Hist) *h.Verdict {
 
 func TestC02Fill(t *testing.T) { h.Run(t, "C02", "fill", genFill, fillOf(judgeRecords("C02"))) }
 func TestC03Fill(t *testing.T) { h.Run(t, "C03", "fill", genFill, fillOf(judgeRecords("C03"))) }
+
+func TestC02Outage(t *testing.T) {
+	h.Run(t, "C02", "outage", func(t *rapid.T) Hist { return genOutageHist(t, false, false) }, outageOf(judgeRecords("C02")))
+}
